@@ -390,6 +390,8 @@ func (g *Gen) randomQuery() {
 			t = "zz"
 		case 3:
 			t = "0x" + hx(g.randBytes(33))
+		case 4:
+			t = g.remoteTokenSpelling()
 		}
 		kv.set("domain", fmt.Sprint(g.domain())).set("token", hs(t))
 	case "UsedNonce":
@@ -522,7 +524,7 @@ func (g *Gen) randomReceive(from string) {
 	}
 	o := attOpts{legacyV: g.pick(3)}
 	if g.chance(0.2) {
-		o.mutation = []string{"trunc1", "trunc65", "pad1", "pad65", "dupLast", "highSTwin", "highSFirst", "reverse", "badV", "zeroR", "flipBit"}[g.pick(11)]
+		o.mutation = []string{"trunc1", "trunc65", "pad1", "pad65", "dupLast", "highSTwin", "highSFirst", "reverse", "badV", "zeroR", "flipBit", "mirrorKey"}[g.pick(12)]
 	}
 	if g.chance(0.05) {
 		o.overMsg = append(append([]byte{}, msg...), 1)
